@@ -623,7 +623,7 @@ int read_msf(struct in_buffer* b,struct msa** m)
                                         seq_ptr->name[i] = 0;
                                         break;
                                 }
-                                if(isspace((int)p[i])){
+                                if(isspace((int)p[i]) || p[i] == 0){
                                         seq_ptr->name[i] = 0;
                                         break;
                                 }
